@@ -57,7 +57,7 @@ Spec == Init /\ [][Next]_vars
 -----------------------------------------------------------------------------
 (* the known degenerate case: x sits on the upper end of full support and the  *)
 (* last fully supported interval has zero length - the code divides 0 by 0.    *)
-Degenerate == DegenerateTop(t, n) /\ x = K(t, NAxes(t, n))
+Degenerate == x = K(t, NAxes(t, n)) /\ \A c \in n .. NAxes(t, n) - 1 : K(t, c) = K(t, c + 1)
 
 HasJunk(s) == \E k \in DOMAIN s : IsJunk(s[k])
 RatJ(r) == <<r[1], r[2]>>
